@@ -744,3 +744,120 @@ def g_life(rng):
     N = rng.choice([2, 5, 20]) if nl == 1 else rng.choice([2, 5])
     ops = list(body) + [{"op": "census", "tag": "after_1", "grace": 4.0}, {"op": "repeat", "n": N, "body": body}, {"op": "census", "tag": "after_1+N", "grace": 4.0}]
     return {"threads": [ops], "end": "return"}, {"gen": "g_life", "lifecycles": names, "N": N}
+
+
+# ---------------------------------------------------------------------------
+PRIMS = ["Lock", "RLock", "Semaphore", "BoundedSemaphore", "Condition", "Event", "Queue", "SimpleQueue"]
+
+
+def g_sem(rng):
+    """C13: creation / disposal of primitives and executors, every way of ending."""
+    ops = []
+    live = []
+    n = 0
+    ctx = rng.choice(["loky", "loky", "loky_init_main"])
+    for step in range(rng.randint(2, 9)):
+        r = rng.random()
+        if r < 0.45 or not live:
+            n += 1
+            nm = "o%d" % n
+            ops.append({"op": "mk", "obj": nm, "type": rng.choice(PRIMS), "ctx": ctx, "n": rng.randint(1, 3), "use": rng.random() < 0.5})
+            live.append(nm)
+        elif r < 0.7:
+            nm = live.pop(rng.randrange(len(live)))
+            ops.append({"op": "drop", "obj": nm})
+        elif r < 0.85:
+            ops.append({"op": "use_obj", "obj": rng.choice(live), "ctx": ctx, "how": rng.choice(["touch", "touch", "crash"])})
+        else:
+            ops.append({"op": "shmlist"})
+    use_exec = rng.random() < 0.7
+    ending = rng.choice(["return", "return", "raise", "sys_exit", "os_exit", "crash_worker", "killself", "return_live"])
+    tmo = 0.3
+    crash = False
+    if use_exec:
+        kind = rng.choice(["plain", "reusable"])
+        kw = {"max_workers": rng.randint(1, 3), "timeout": tmo if ending == "killself" else rng.choice([10, 0.3])}
+        if kind == "plain" and ctx != "loky":
+            kw["context"] = ctx
+        ops.append({"op": "new", "ex": "e", "kind": kind, "kw": kw})
+        for i in range(rng.randint(1, 6)):
+            ops.append({"op": "submit", "ex": "e", "task": t_ok(rng) if rng.random() < 0.7 else t_sleep(rng)})
+        if ending == "crash_worker":
+            ops.append({"op": "submit", "ex": "e", "task": t_die(rng)})
+            crash = True
+        if ending != "killself":
+            ops.append({"op": "wait", "futs": "all"})
+        if ending in ("return", "crash_worker") or (ending == "raise" and rng.random() < 0.5):
+            ops.append({"op": "shutdown", "ex": "e", "wait": True})
+            if kind == "plain":
+                ops += [{"op": "del", "ex": "e"}]
+    elif ending in ("crash_worker",):
+        ending = "return"
+    released_all = False
+    if ending in ("return", "crash_worker") and rng.random() < 0.7:
+        for nm in live:
+            ops.append({"op": "drop", "obj": nm})
+        live = []
+        ops.append({"op": "forget", "ex": ["e"]})
+        if not (use_exec and kind == "reusable"):
+            ops.append({"op": "shmlist", "expect_empty": True})
+        released_all = True
+    end = {"return": "return", "return_live": "return", "crash_worker": "return", "raise": "raise", "sys_exit": "sys_exit", "os_exit": "os_exit", "killself": "killself"}[ending]
+    prog = {"threads": [ops], "end": end}
+    meta = {"gen": "g_sem", "ctx": ctx, "ending": ending, "use_exec": use_exec, "released_all": released_all, "crash": crash or any(o.get("how") == "crash" for o in ops)}
+    return prog, meta
+
+
+def g_tree(rng):
+    """C12: a process tree of depth 0-3 reporting to one tracker; deaths in several orders."""
+    depth = rng.choice([0, 1, 1, 2, 3])
+    ctxs = ("loky", "loky", "loky_init_main")
+    tmo = rng.choice([0.5, 1.0])
+    ops = [{"op": "tracker", "what": "ensure"}, {"op": "tracker", "what": "register_file", "name": "res0"}]
+    kw = {"max_workers": rng.randint(1, 3), "timeout": tmo}
+    ops.append({"op": "new", "ex": "e", "kind": rng.choice(["plain", "reusable"]), "kw": kw})
+
+    def chain(level):
+        sub = [{"k": "probe", "what": ["tracker", "pid", "depth"]}]
+        if level < depth:
+            sub.append(chain(level + 1))
+        c = rng.choice(ctxs)
+        k = rng.choice(["reusable", "plain"])
+        kkw = {"max_workers": rng.randint(1, 2), "timeout": tmo}
+        if c != "loky" or k == "plain":
+            kkw["context"] = c
+        return {"k": "nested", "kind": k, "kw": kkw, "sub": sub, "then": "wait", "shutdown": k == "plain"}
+
+    for i in range(rng.randint(1, 3)):
+        ops.append({"op": "submit", "ex": "e", "task": {"k": "probe", "what": ["tracker", "pid", "depth"]}})
+    if depth >= 1:
+        ops.append({"op": "submit", "ex": "e", "task": chain(1)})
+    ops.append({"op": "wait", "futs": "all"})
+    variant = rng.choice(["signals", "signals", "kill_tracker", "root_first", "leaves_first", "kill_worker", "plain"])
+    if variant == "signals":
+        for i in range(rng.randint(1, 4)):
+            ops.append({"op": "tracker", "what": "signal", "sig": rng.choice(["SIGINT", "SIGTERM"]), "settle": 0.05})
+        ops.append({"op": "tracker", "what": "register_file", "name": "res1"})
+    elif variant == "kill_tracker":
+        for i in range(rng.randint(1, 3)):
+            ops.append({"op": "tracker", "what": "kill"})
+            ops.append({"op": "tracker", "what": rng.choice(["mk_sem", "register_file"]), "obj": "s%d" % i, "name": "resk%d" % i})
+            if rng.random() < 0.5:
+                ops.append({"op": "submit", "ex": "e", "task": {"k": "probe", "what": ["pid"]}})
+                ops.append({"op": "wait", "futs": "all"})
+    elif variant == "kill_worker":
+        ops.append({"op": "kill", "ex": "e", "which": 0, "sig": rng.choice(["SIGKILL", "SIGTERM"])})
+        ops.append({"op": "sleep", "d": 0.2})
+    end = "return"
+    if variant == "root_first":
+        # keep workers busy so that they outlive the root by at least a second
+        for i in range(kw["max_workers"]):
+            ops.append({"op": "submit", "ex": "e", "task": {"k": "sleep", "d": 1.5}})
+        ops.append({"op": "sleep", "d": 0.3})
+        end = "killself"
+    elif variant == "leaves_first":
+        ops.append({"op": "shutdown", "ex": "e", "wait": True})
+        ops.append({"op": "tracker", "what": "ensure"})
+        ops.append({"op": "sleep", "d": 0.2})
+    ops.append({"op": "tracker", "what": "ensure", "final": True})
+    return {"threads": [ops], "end": end}, {"gen": "g_tree", "depth": depth, "variant": variant, "kw": kw}
